@@ -258,12 +258,14 @@ def n_outputs(P, func, depth=3):
 
     from ..index import FuncInfo as _F
 
+    from .common import return_exprs
+
     n = 1
-    for nd in _ast.walk(func.node):
-        if isinstance(nd, _ast.Return) and isinstance(nd.value, _ast.Tuple):
-            n = max(n, len(nd.value.elts))
-        elif isinstance(nd, _ast.Return) and isinstance(nd.value, _ast.Call) and depth > 0 and isinstance(nd.value.func, (_ast.Name, _ast.Attribute)):
-            r = P.resolve_expr(func.module, nd.value.func)
+    for v in return_exprs(func):
+        if isinstance(v, _ast.Tuple):
+            n = max(n, len(v.elts))
+        elif isinstance(v, _ast.Call) and depth > 0 and isinstance(v.func, (_ast.Name, _ast.Attribute)):
+            r = P.resolve_expr(func.module, v.func)
             if isinstance(r, _F) and r is not func:
                 n = max(n, n_outputs(P, r, depth - 1))
     return n
